@@ -947,7 +947,7 @@ impl Replayer {
         }
         let before = self.w.parties[&p].group.as_ref().map(|g| g.verif_state());
         let storage_op = matches!(a.as_str(), "ApplyPending" | "ApplyDetached" | "DeliverCommit" | "DeliverApp" | "Write" | "Load" | "JoinWelcome" | "GenKeyPackage" | "Commit" | "CommitDetached");
-        let (got, epoch_changed) = if self.faults && storage_op {
+        let (got, epoch_changed) = if self.faults && storage_op && (a == "Write" || !FAULTS_WRITE_ONLY.load(std::sync::atomic::Ordering::Relaxed)) {
             self.exec_with_faults(&a, &p, &args, &out, &want)
         } else {
             self.exec(&a, &p, &args, &out, &want)
@@ -1104,7 +1104,7 @@ impl Replayer {
                         let new_ref = g.get_cached_proposals().iter().map(|c| c.proposal_ref().as_slice().to_vec()).find(|r| !before.contains(r)).unwrap_or_default();
                         self.w.props.push(m);
                         self.w.prop_refs.push(new_ref);
-                        self.w.prop_meta.push((kind.clone(), "external:0".to_string(), pad));
+                        self.w.prop_meta.push((kind.clone(), "external:1".to_string(), pad));
                         Ok("ok".into())
                     }
                     Ok(Err(e)) => Ok(classify(&e)),
@@ -1578,6 +1578,7 @@ thread_local! {
     /// the ExternalSenders extension every group context of the running behaviour carries (if it uses an external sender)
     pub static EXT_SENDERS: std::cell::RefCell<Option<mls_rs::extension::built_in::ExternalSendersExt>> = std::cell::RefCell::new(None);
 }
+pub static FAULTS_WRITE_ONLY: std::sync::atomic::AtomicBool = std::sync::atomic::AtomicBool::new(false);
 pub const CUSTOM_PROPOSAL: u16 = 0xF0F1;
 pub const GCE_EXT: mls_rs::extension::ExtensionType = mls_rs::extension::ExtensionType::new(0xF0F0);
 
